@@ -309,3 +309,76 @@ def _veq(x, y):
     if isinstance(x, symdata.Cell) or isinstance(y, symdata.Cell):
         return x is y
     return x == y
+
+
+# ---- histories: two calls sharing tokenizer and frames ------------------------------------------
+
+def make_history(cfg_in):
+    """cfg['calls']: list of call configs (dicts with entry/filter/measure/threshold...).  A symbolic
+    pair (first, second) of them runs on shared frames and tokenizer; the second result must equal
+    the result of the same call on fresh objects, and the shared state must be as found."""
+    cfg = dict(DEFAULTS)
+    cfg.update(cfg_in)
+
+    def h(c):
+        tok_mode = _opt(c, 'tokmode', cfg['tok_return_set'])
+        bag = cfg['bag'] and not tok_mode
+        Lt = scenario.build_table(c, 'L', cfg['nl'], cfg['k'], cfg['kmin'], cfg['missing'], bag, False)
+        Rt = scenario.build_table(c, 'R', cfg['nr'], cfg['k'], cfg['kmin'], cfg['missing'], bag, False)
+        calls = cfg['calls']
+        i1 = int(c.int_var('first', 0, len(calls) - 1))
+        i2 = int(c.int_var('second', 0, len(calls) - 1))
+
+        def scen(i):
+            cc = calls[i]
+            e = cc['entry']
+            s = dict(entry=e, filter=cc.get('filter'), measure=cc.get('measure') or
+                     scenario.JOIN_MEASURE.get(e), kind=cc.get('kind', 'join'),
+                     threshold=cc['threshold'], comp_op=cc.get('comp_op', '>='),
+                     allow_empty=cc.get('allow_empty', True),
+                     allow_missing=cc.get('allow_missing', False),
+                     out_sim_score=cc.get('out_sim_score', True), n_jobs=cc.get('n_jobs', 1),
+                     l_key='id', r_key='id', l_attr='attr', r_attr='attr', l_out_attrs=None,
+                     r_out_attrs=None, l_out_prefix='l_', r_out_prefix='r_', tok_return_set=tok_mode)
+            if e == 'filter_tables' and cc.get('filter') != 'OverlapFilter':
+                s['out_sim_score'] = False
+            s['L'], s['R'] = scenario.table_dict(Lt), scenario.table_dict(Rt)
+            return s
+        s1, s2 = scen(i1), scen(i2)
+
+        def detail(prop, clause, msg):
+            def mk(m):
+                return {'prop': prop, 'clause': clause, 'msg': msg, 'harness': 'h_hist',
+                        'scenario': scenario.concretize_scenario(s1, m),
+                        'scenario2': scenario.concretize_scenario(s2, m)}
+            return mk
+
+        tok = symdata.AbsTok(return_set=tok_mode)
+        Lf, Rf = Lt.frame(), Rt.frame()
+        snap = (Lf.snapshot(), Rf.snapshot())
+        with repo.patched(bindings()):
+            try:
+                scenario.call_entry(s1, Lf, Rf, tok)
+                mode_after_first = tok.get_return_set()
+                shared = oracle.Result.of(scenario.call_entry(s2, Lf, Rf, tok))
+                fresh = oracle.Result.of(scenario.call_entry(
+                    s2, Lt.frame(), Rt.frame(), symdata.AbsTok(return_set=tok_mode)))
+            except Violation:
+                raise
+            except Exception as e:
+                msg = 'valid call raised %s: %s' % (type(e).__name__, e)
+                raise Violation(msg, detail('CRASH', 'call-succeeds', msg))
+        bad = None
+        if mode_after_first != tok_mode or tok.get_return_set() != tok_mode:
+            bad = ('tokenizer-restored', 'tokenizer return_set was %r, is %r after the first and %r '
+                   'after the second call' % (tok_mode, mode_after_first, tok.get_return_set()))
+        elif (Lf.snapshot(), Rf.snapshot()) != snap or Lf.mutations or Rf.mutations:
+            bad = ('inputs-untouched', 'an input table was modified')
+        elif shared.columns != fresh.columns or not _same_multiset(shared.rows, fresh.rows):
+            bad = ('history-independent', 'second call returns %r after the first call but %r in '
+                   'isolation' % (shared.rows, fresh.rows))
+        if bad:
+            raise Violation('C12/%s: %s' % bad, detail('C12', bad[0], bad[1]))
+        return {'nontrivial': True, 'tags': ['pair=%d,%d' % (i1, i2)], 'sample': None}
+
+    return h
